@@ -6,6 +6,8 @@ CONSTANTS
   Configs <- AllConfigs
   Lite = TRUE
   Hold = FALSE
+  Burst = FALSE
+  DecidedInLoop = TRUE
   DrainAll = TRUE
   RejectChecksSlot = TRUE
 INVARIANTS EmitLeaf
